@@ -80,6 +80,9 @@ def templates():
     add("Atan2", C.Atan2, [S("a"), S("b")], lambda o: C.Atan2(o[0], o[1]))
     for cls in (C.BesselJ, C.BesselY, C.BesselI, C.BesselK):
         add(cls.__name__, cls, [S("a")], (lambda cls: lambda o: cls(C.IntValue(1), o[0]))(cls))
+        # order zero (its own case in the differentiation rules) and a higher order
+        add(cls.__name__ + "[nu=0]", cls, [S("a")], (lambda cls: lambda o: cls(C.Zero(), o[0]))(cls))
+        add(cls.__name__ + "[nu=2]", cls, [S("a")], (lambda cls: lambda o: cls(C.IntValue(2), o[0]))(cls))
     # restrictions
     add("PositiveRestricted", C.PositiveRestricted, [S("a")], lambda o: C.PositiveRestricted(o[0]))
     add("NegativeRestricted", C.NegativeRestricted, [S("a", (2,))], lambda o: C.NegativeRestricted(o[0]))
